@@ -5,6 +5,8 @@ import (
 	"go/ast"
 	"go/token"
 	"go/types"
+	"os"
+	"runtime/debug"
 	"strings"
 
 	"cffverif/internal/astx"
@@ -1056,6 +1058,7 @@ func (c *ctx) typeKeyed() {
 // Rules is the G-rule catalogue.
 var Rules = []report.Rule{
 	{ID: "G27", Floor: 3, Props: []string{"C14"}, Text: "the sentinel types of output-less tasks and of predicates are keys of the same structural type map as user types: the two families differ in their field type, and each member is named after the family's counter, incremented unconditionally first"},
+	{ID: "G32", Floor: 3, Props: []string{"C14"}, Text: "a cff.Params value is struck off the unused list only where no task provides its type, leftovers are reported, and no diagnostic of compileFlow's option loop depends on what other options contributed so far (acceptance is independent of the order of the options)"},
 	{ID: "G31", Floor: 5, Props: []string{"C13"}, Text: "every package name the base-mode generator hands to the templates (the import function, the type qualifier) is looked up in the scope of the directive first, and the recorded errors are returned before the output is written"},
 	{ID: "G30", Floor: 2, Props: []string{"C13"}, Text: "after compiling a Flow/Parallel directive the file walker either descends into it or scans its arguments for nested directives and reports them: no directive call is left unprocessed silently"},
 	{ID: "G28", Floor: 2, Props: []string{"C14"}, Text: "memo / visited-set keys of the validators' graph searches are total over the nodes: the key is the node (or its structural type) itself, or a field that every constructor of the node sets"},
@@ -1094,30 +1097,53 @@ func Run(repo *load.Repo, s *report.Sink) error {
 		return fmt.Errorf("package internal not loaded")
 	}
 	s.SetFact("genlint.files", len(c.files))
-	c.mapOrder()
-	c.entropy()
-	c.ambientState()
-	c.fileWrites()
-	c.compileGate()
-	c.guardedPreconditions()
-	c.assignability()
-	c.duplicates()
-	c.positioned()
-	c.prologue()
-	c.inversion()
-	c.sourceCopy()
-	c.modeFlag()
-	c.errorPlumbing()
-	c.typeKeyed()
-	c.dependsOn()
-	c.bounds()
-	c.nilSafety()
-	c.generatedNames()
-	c.cycleSearch()
-	c.sentinelFamilies()
-	c.memoKeys()
-	c.walkerCompleteness()
-	c.packageVisibility()
-	c.structuralAssertions()
+	// every rule runs under its own recover: a construct one rule cannot digest leaves that rule undecided
+	// (which fails the properties it supports) without silencing the others
+	steps := []struct {
+		rules []string
+		run   func()
+	}{
+		{[]string{"G1"}, c.mapOrder},
+		{[]string{"G2"}, c.entropy},
+		{[]string{"G3"}, c.ambientState},
+		{[]string{"G4", "G6"}, c.fileWrites},
+		{[]string{"G5", "G9"}, c.compileGate},
+		{[]string{"G7"}, c.guardedPreconditions},
+		{[]string{"G8"}, c.assignability},
+		{[]string{"G10"}, c.duplicates},
+		{[]string{"G11"}, c.positioned},
+		{[]string{"G12", "G13"}, c.prologue},
+		{[]string{"G14"}, c.inversion},
+		{[]string{"G15"}, c.sourceCopy},
+		{[]string{"G16"}, c.modeFlag},
+		{[]string{"G17"}, c.errorPlumbing},
+		{[]string{"G18"}, c.typeKeyed},
+		{[]string{"G19", "G20"}, c.dependsOn},
+		{[]string{"G21"}, c.bounds},
+		{[]string{"G23", "G24"}, c.nilSafety},
+		{[]string{"G25"}, c.generatedNames},
+		{[]string{"G26"}, c.cycleSearch},
+		{[]string{"G27"}, c.sentinelFamilies},
+		{[]string{"G28"}, c.memoKeys},
+		{[]string{"G30"}, c.walkerCompleteness},
+		{[]string{"G31"}, c.packageVisibility},
+		{[]string{"G32"}, c.inputAccounting},
+		{[]string{"G29"}, c.structuralAssertions},
+	}
+	for _, st := range steps {
+		func() {
+			defer func() {
+				if r := recover(); r != nil {
+					if os.Getenv("CFFVERIF_TRACE") != "" {
+						os.Stderr.Write(debug.Stack())
+					}
+					for _, id := range st.rules {
+						s.Unk(id, "analyser", "", fmt.Sprintf("rule %s could not be evaluated on this code (analyser panic: %v)", id, r))
+					}
+				}
+			}()
+			st.run()
+		}()
+	}
 	return nil
 }
